@@ -18,7 +18,15 @@ pub fn extract_operation(spec: &OpenAPI, path: &str, method: &str, op: &Operatio
         None => Ty::Unit,
         Some(x @ ReferenceOr::Reference { .. }) => schema_ref_to_ty(x, spec),
         Some(ReferenceOr::Item(res)) => {
-            let name = format!("{}Response", name.to_case(Case::Pascal));
+            // The invented name must not replace a schema that is already there (e.g. a component of the
+            // document that happens to be called `<Op>Response`).
+            let base = format!("{}Response", name.to_case(Case::Pascal));
+            let mut name = base.clone();
+            let mut n = 2;
+            while hir.schemas.contains_key(&name) {
+                name = format!("{}{}", base, n);
+                n += 1;
+            }
             extract_schema(&name, res, spec, hir);
             if is_primitive(res, spec) {
                 schema_to_ty(res, spec)
